@@ -61,7 +61,7 @@ LEVEL_TEXT = (
     "Theorems C20_server_log_hides_password, C20_server_stream_hides_password, C20_server_session_hides_password, "
     "C20_client_log_hides_password, C20_client_login_records_hide_password, C20_client_login_hides_password_any_server (the login "
     "program regenerated from client.py against every script of reply lines), C20_login_program_condition_suffices, C20_login_session_hides_password, "
-    "C20_outcome_independent, C20_pass_reply_fixed, C20_censored_args_are_stars, C20_pass_spellings and the checker "
+    "C20_outcome_independent, C20_pass_reply_fixed, C20_censored_args_are_stars, C20_pass_spellings, C20_other_verbs_are_not_logins and the checker "
     "soundness theorems C20_every_site_hides_server/client are proved for every verb spelling the server dispatches as "
     "PASS, every password string (LF-free at stream level), every line ending, every session prefix/suffix and user table "
     "(Closed under the global context); C20_check_log_sites, C20_modelled_sites_match and C20_pass_facts are closed "
